@@ -489,6 +489,13 @@ def gen_c09(r):
         cv = [r.choice(pal) for _ in range(max(lens) if lens else 0)]
         arr = [dt, [[[cv[j] if r.random() < 0.85 else r.choice(pal), 1] for j in range(l)] for l in lens]]
     name = r.choice(["colsum", "colsum", "colmean", "colcounts", "colvalues"])
+    if r.random() < 0.004:
+        # a tall array: millions of equal rows of a 32-bit dtype near its extremes (totals beyond 2**53)
+        from .enc import limbs
+        tdt = r.choice(["u4", "i4"])
+        top = 2 ** 32 - 1 if tdt == "u4" else 2 ** 31 - 1
+        row = [limbs(r.choice([top, top - 1, top - r.randint(0, 1000), -top if tdt == "i4" else 3, r.randint(0, 9)])) for _ in range(r.randint(1, 3))]
+        return ["wcolsum_rep", tdt, row, r.choice([2200000, 2600000, 4194304])], {"how": r.choice(["method", "np"]), "hi": 0}, False
     if r.random() < 0.12 and sum(lens):
         from .enc import limbs
         arr = wide_arr(r, lens)
